@@ -151,6 +151,10 @@ fn check_site(lat: f64, lon: f64, date: NaiveDate, rep: &mut Report) -> Result<(
     }
     let oh = OpeningHours::parse("sunrise-sunset").unwrap().with_context(ctx.clone());
     let oh2 = OpeningHours::parse("dawn-dusk").unwrap().with_context(ctx);
+    // the very first evaluation in this context is kept and judged below (so that whatever was
+    // evaluated before - another place, another date - cannot leak into it unnoticed)
+    let first_schedule: Vec<(u16, u16)> = guarded(|| oh.schedule_at(date).into_iter().filter(|t| t.kind == RuleKind::Open).map(|t| (t.range.start.mins_from_midnight(), t.range.end.mins_from_midnight())).collect())
+        .map_err(|p| format!("schedule_at({date}) at ({lat}, {lon}) panicked: {p}"))?;
     // evaluation never panics, wherever the pair is
     let noon_guess = tz.from_utc_datetime(&(date.and_hms_opt(12, 0, 0).unwrap() - Duration::seconds((lon * 240.0) as i64)));
     guarded(|| {
@@ -201,6 +205,9 @@ fn check_site(lat: f64, lon: f64, date: NaiveDate, rep: &mut Report) -> Result<(
     // the schedule of the day shows exactly the local event times (minute resolution)
     let open: Vec<(u16, u16)> = oh.schedule_at(date).into_iter().filter(|t| t.kind == RuleKind::Open).map(|t| (t.range.start.mins_from_midnight(), t.range.end.mins_from_midnight())).collect();
     let m = |t: NaiveDateTime| (t.hour() * 60 + t.minute()) as u16;
+    if first_schedule != open {
+        return Err(format!("'sunrise-sunset' at ({lat}, {lon}) [{tz}] on {date}: the first evaluation in this context gave open {first_schedule:?}, a later one {open:?} (minutes)"));
+    }
     // (other open ranges can be yesterday's span passing local midnight at high latitude)
     if !open.contains(&(m(l_rise), m(l_set))) {
         return Err(format!("'sunrise-sunset' at ({lat}, {lon}) [{tz}] on {date}: open {open:?} (minutes), local sunrise {l_rise} sunset {l_set}"));
@@ -296,6 +303,23 @@ pub fn run(args: &Args, rep: &mut Report) {
         };
         let date = gen_date(&mut r);
         rep.begin(&format!("({lat}, {lon}) {date}"));
+        // evaluation history must not matter: another place is evaluated on the neighbouring
+        // dates immediately before (a memoised solar day keyed on too little would be reused)
+        if k % 2 == 0 {
+            let c = r.pick(&CITIES);
+            for d in [date.succ_opt(), Some(date), date.pred_opt()].into_iter().flatten() {
+                if let Err(msg) = check_site(c.1, c.2, d, rep) {
+                    rep.violation("sun_events", msg, json!({"lat": c.1, "lon": c.2, "date": d.to_string()}), None);
+                }
+                if d != date {
+                    if let Err(msg) = check_site(lat, lon, date, rep) {
+                        rep.violation("sun_events", format!("after evaluating {} on {d}: {msg}", c.0), json!({"lat": lat, "lon": lon, "date": date.to_string(), "before": {"lat": c.1, "lon": c.2, "date": d.to_string()}}), None);
+                        break;
+                    }
+                }
+            }
+            rep.count("history_interference_probes");
+        }
         match check_site(lat, lon, date, rep) {
             Ok(()) => {
                 rep.nontrivial(crate::rng::hash64(&format!("{lat}|{lon}|{date}")));
@@ -323,6 +347,9 @@ pub fn run(args: &Args, rep: &mut Report) {
 
 pub fn replay(case: &Value, rep: &mut Report) {
     rep.evaluations += 1;
+    if let (Some(lat), Some(lon), Some(date)) = (case["before"]["lat"].as_f64(), case["before"]["lon"].as_f64(), case["before"]["date"].as_str().and_then(|s| s.parse::<NaiveDate>().ok())) {
+        let _ = check_site(lat, lon, date, rep);
+    }
     if let (Some(lat), Some(lon), Some(date)) = (case["lat"].as_f64(), case["lon"].as_f64(), case["date"].as_str().and_then(|s| s.parse::<NaiveDate>().ok())) {
         if let Err(msg) = check_site(lat, lon, date, rep) {
             rep.violation("sun_events", msg, case.clone(), None);
